@@ -64,7 +64,9 @@ func Write(w io.Writer, scalerType uint32, tables map[string][]byte) (int64, err
 	}
 
 	// temporarily clear the checksum in the "head" table
-	if headData, ok := tables["head"]; ok {
+	headData := tables["head"]
+	hasHead := len(headData) >= 12
+	if hasHead {
 		clearChecksum(headData)
 	}
 
@@ -95,7 +97,7 @@ func Write(w io.Writer, scalerType uint32, tables map[string][]byte) (int64, err
 	totalSum += checksum(headerBytes)
 
 	// set the final checksum in the "head" table
-	if headData, ok := tables["head"]; ok {
+	if hasHead {
 		patchChecksum(headData, totalSum)
 	}
 
